@@ -156,6 +156,12 @@ impl Ctx {
     /// keeps reading.  Reports: requests answered with an error although they took less than the
     /// lock-wait budget, parents accepted twice, accepted versions that are not on the stored chain.
     pub fn race(&mut self, c: u32, nw: usize, rounds: usize) {
+        self.race_mode(c, nw, rounds, false)
+    }
+
+    /// shared = true: all streams go through ONE server object (one storage instance shared by the worker threads of
+    /// a process), instead of one instance per stream on one directory
+    pub fn race_mode(&mut self, c: u32, nw: usize, rounds: usize, shared: bool) {
         use std::sync::atomic::{AtomicBool, AtomicUsize, Ordering};
         use std::sync::Mutex;
         use std::time::Instant;
@@ -178,7 +184,7 @@ impl Ctx {
                 l
             }
         };
-        let extra: Vec<Server> = if self.backend == Backend::Sqlite { (0..nw + 2).map(|_| mk(self)).collect() } else { vec![] };
+        let extra: Vec<Server> = if self.backend == Backend::Sqlite && !shared { (0..nw + 2).map(|_| mk(self)).collect() } else { vec![] };
         let main = self.server.as_ref().unwrap();
         let pick = |i: usize| -> &Server { if extra.is_empty() { main } else { &extra[i] } };
         let published = Mutex::new(start_latest);
@@ -188,6 +194,7 @@ impl Ctx {
         let snaps_ok = AtomicUsize::new(0);
         let reads_ok = AtomicUsize::new(0);
         let torn = AtomicUsize::new(0);
+        let max_ok_ms = AtomicUsize::new(0);
         let done = AtomicBool::new(false);
         let budget_ms: u128 = 4000;
         let gate = std::sync::Barrier::new(nw + 2);
@@ -203,14 +210,16 @@ impl Ctx {
         std::thread::scope(|sc| {
             let mut ws = vec![];
             for w in 0..nw {
-                let (published, accepted, note, gate) = (&published, &accepted, &note, &gate);
+                let (published, accepted, note, gate, max_ok_ms) = (&published, &accepted, &note, &gate, &max_ok_ms);
                 let srv = pick(w);
                 ws.push(sc.spawn(move || {
                     let mut parent = start_latest;
                     gate.wait();
                     for r in 0..rounds {
                         let t0 = Instant::now();
-                        match catch_unwind(AssertUnwindSafe(|| srv.add_version(cu, parent, vec![w as u8, r as u8, 7]))) {
+                        let res = catch_unwind(AssertUnwindSafe(|| srv.add_version(cu, parent, vec![w as u8, r as u8, 7])));
+                        if matches!(res, Ok(Ok(_))) { max_ok_ms.fetch_max(t0.elapsed().as_millis() as usize, Ordering::SeqCst); }
+                        match res {
                             Ok(Ok((AddVersionResult::Ok(v), _))) => {
                                 accepted.lock().unwrap().push((v, parent));
                                 *published.lock().unwrap() = v;
@@ -296,11 +305,14 @@ impl Ctx {
         let extra_on_chain = chain.iter().filter(|x| !acc.contains(x)).count();
         let f = fast_errs.into_inner().unwrap();
         let first: Vec<String> = f.iter().filter(|x| !x.is_empty()).cloned().collect();
-        let line = format!("race fast_errors={} slow_errors={} accepted={} parents_twice={} orphans={} unacknowledged_on_chain={} walk={} snaps={} reads={} torn_snapshots={} first={}",
+        let line = format!("race fast_errors={} slow_errors={} accepted={} parents_twice={} orphans={} unacknowledged_on_chain={} walk={} snaps={} reads={} torn_snapshots={} max_ok_ms={} first={}",
             f.len(), slow_errs.load(Ordering::SeqCst), acc.len(), twice, orphans, extra_on_chain, if walk_err { "error" } else { "ok" },
-            if snaps_ok.load(Ordering::SeqCst) > 0 { "some" } else { "none" }, if reads_ok.load(Ordering::SeqCst) > 0 { "some" } else { "none" }, torn.load(Ordering::SeqCst),
+            if snaps_ok.load(Ordering::SeqCst) > 0 { "some" } else { "none" }, if reads_ok.load(Ordering::SeqCst) > 0 { "some" } else { "none" }, torn.load(Ordering::SeqCst), max_ok_ms.load(Ordering::SeqCst),
             if first.is_empty() { "-".to_string() } else { first.join(";") });
-        self.emit(format!("race {c} {nw} {rounds}"), line);
+        // what was accepted is part of the client's history from here on
+        let on_chain: Vec<(Uuid, Uuid)> = chain.iter().filter(|x| acc.contains(x)).cloned().collect();
+        self.accepted.entry(c).or_default().extend(on_chain);
+        self.emit(format!("race {c} {nw} {rounds}{}", if shared { " shared" } else { "" }), line);
     }
 
     /// `txn C call...`: calls are gc | nc=ID | ss=VER/SINCE/PAYLOAD | gsd=VER | gvp=PARENT | gv=VER |
@@ -1077,6 +1089,11 @@ impl Ctx {
             ["race", c, nw, rounds] => {
                 assert!(self.raw, "race needs the raw mode");
                 self.race(c.parse().unwrap(), nw.parse().unwrap(), rounds.parse().unwrap());
+                return;
+            }
+            ["race", c, nw, rounds, "shared"] => {
+                assert!(self.raw, "race needs the raw mode");
+                self.race_mode(c.parse().unwrap(), nw.parse().unwrap(), rounds.parse().unwrap(), true);
                 return;
             }
             ["deadstart", k] => {
